@@ -94,6 +94,26 @@ def c17_streams(tier, rng):
                 ops += [["vec"] + vec, ["all"], ["image"], ["reload"], ["all"]]
                 cases.append(("ls%d" % cid, "logseq", "-", {"w": w, "n": n}, [], ops))
                 cid += 1
+    # DAC_VLS: lists of sequences of every shape (all of length 1, one long one, ragged, many), several field widths
+    r = rng.fork("dac")
+    shapes = []
+    for n in (1, 2, 5, 31, 32, 33, 40) + ((100, 257, 1000) if thorough else (100,)):
+        shapes.append([1] * n)                                   # a single level
+        shapes.append([1 + r.below(3) for _ in range(n)])        # short ragged
+        shapes.append([1 + r.below(9) for _ in range(n)])
+        shapes.append([1] * (n - 1) + [12])                      # one sequence reaches the deep levels
+        shapes.append([7] * n)                                   # every level full
+        if thorough:
+            shapes.append([1 + r.below(40) for _ in range(n)])
+    did = 0
+    for lens in shapes:
+        for logr in ((1, 7, 8, 13, 20, 32) if thorough else r.sample([1, 7, 8, 13, 20, 32], 2)):
+            hi = min((1 << logr) - 1, (1 << 31) - 1)   # the constructor takes `int*`: negative entries are separators
+            L = [[max(1, r.below(hi + 1)) if r.chance(7, 8) else hi for _ in range(k)] for k in lens]
+            enc = ";".join(",".join(str(x) for x in sq) for sq in L)
+            ops = [["dac", logr, enc], ["dac", logr, enc, "reload"]]
+            cases.append(("dac%d" % did, "dac", "-", {}, [], ops))
+            did += 1
     return [StreamSet("codecs", "asan", cases)]
 
 
@@ -769,7 +789,7 @@ def c19_streams(tier, rng):
     r = rng.fork("c19")
     cases = []
     vs = bitvectors(tier, rng)
-    impls = [("rg", f) for f in (1, 2, 3, 4, 20, 32)] + [("rrr", sm) for sm in (4, 16, 32, 64, 128)]
+    impls = [("rg", f) for f in (1, 2, 3, 4, 5, 7, 20, 32)] + [("rrr", sm) for sm in (1, 3, 4, 5, 7, 9, 16, 31, 32, 33, 64, 128)]
     cid = 0
     for bits in vs:
         chosen = impls if (thorough or len(bits) > 12) else r.sample(impls, 3)
